@@ -1,8 +1,8 @@
 /-
-C08 helper lemmas, part 3: post-conditions of a fault-free `partition.replica` call
+C08 helper lemmas, part 5: post-conditions of a fault-free `partition.replica` call
 ("the channel resynchronises without operator action").
 -/
-import LinVerif.Lemmas.C08Inv
+import LinVerif.Lemmas.C08Run
 
 namespace LinVerif.Replication
 
@@ -54,7 +54,7 @@ theorem sendPhase_none_keeps (s : St) (hr : s.chan = .ready) (hu : s.stream = .u
     · split <;> simp_all
 
 /-- a fault-free `partition.replica` call on a non-ready channel whose follower is live ends synced -/
-theorem replicaStep_none_syncs (cfg : Cfg) (s : St) (h : Inv s) (hn : s.chan ≠ .ready) (hl : s.live = true) :
+theorem replicaStep_none_syncs (cfg : Cfg) (s : St) (h : InvA s) (hn : s.chan ≠ .ready) (hl : s.live = true) :
     Synced (replicaStep cfg s .none).1 := by
   have hs := handshake_spec cfg s .none h
   have hok := handshake_none_ok cfg s
@@ -88,5 +88,195 @@ theorem replicaStep_none_stays (cfg : Cfg) (s : St) (hs : Synced s) : Synced (re
   dsimp only
   rw [if_pos rfl]
   exact sendPhase_none_keeps s hs.1 hs.2
+
+/-! ### flags a replica call leaves alone -/
+
+theorem ackGroup_flags (t : St) (a : Int) :
+    (ackGroup t a).live = t.live ∧ (ackGroup t a).susp = t.susp ∧ (ackGroup t a).stopped = t.stopped ∧
+    (ackGroup t a).gone = t.gone ∧ (ackGroup t a).L = t.L ∧ (ackGroup t a).chan = t.chan ∧
+    (ackGroup t a).stream = t.stream ∧ (ackGroup t a).F = t.F ∧ (ackGroup t a).cons = t.cons := by
+  unfold ackGroup; split <;> exact ⟨rfl, rfl, rfl, rfl, rfl, rfl, rfl, rfl, rfl⟩
+
+/-- a replica call never changes `live`, `stopped`, `gone`; with a live follower it does not park -/
+theorem replicaStep_flags (cfg : Cfg) (s : St) (f : Fault) (hl : s.live = true) (hs : s.susp = false) :
+    (replicaStep cfg s f).1.live = true ∧ (replicaStep cfg s f).1.susp = false ∧
+    (replicaStep cfg s f).1.stopped = s.stopped ∧ (replicaStep cfg s f).1.gone = s.gone := by
+  have hhs : (handshake cfg s f).1.live = s.live ∧ (handshake cfg s f).1.susp = s.susp ∧
+      (handshake cfg s f).1.stopped = s.stopped ∧ (handshake cfg s f).1.gone = s.gone := by
+    unfold handshake resetReplicaIndex followerReset
+    dsimp only
+    split
+    · exact ⟨rfl, rfl, rfl, rfl⟩
+    split
+    · exact ⟨rfl, rfl, rfl, rfl⟩
+    split
+    · exact ⟨rfl, rfl, rfl, rfl⟩
+    split
+    · split <;> exact ⟨rfl, rfl, rfl, rfl⟩
+    · have hag := ackGroup_flags
+      split
+      · split
+        · simp [(hag _ _).1, (hag _ _).2.1, (hag _ _).2.2.1, (hag _ _).2.2.2.1, resetAppendIndex]
+        · simp [(hag _ _).1, (hag _ _).2.1, (hag _ _).2.2.1, (hag _ _).2.2.2.1, resetAppendIndex]
+      · split
+        · simp [(hag _ _).1, (hag _ _).2.1, (hag _ _).2.2.1, (hag _ _).2.2.2.1]
+        · simp [(hag _ _).1, (hag _ _).2.1, (hag _ _).2.2.1, (hag _ _).2.2.2.1]
+  have hir : (isReady cfg s f).1.live = s.live ∧ (isReady cfg s f).1.susp = s.susp ∧
+      (isReady cfg s f).1.stopped = s.stopped ∧ (isReady cfg s f).1.gone = s.gone := by
+    unfold isReady
+    split
+    · exact ⟨rfl, rfl, rfl, rfl⟩
+    split
+    · rename_i x; rw [hl] at x; cases x
+    · exact hhs
+  have hcn : ∀ t : St, (connect t f).1.live = t.live ∧ (connect t f).1.susp = t.susp ∧
+      (connect t f).1.stopped = t.stopped ∧ (connect t f).1.gone = t.gone := by
+    intro t; unfold connect
+    split
+    · exact ⟨rfl, rfl, rfl, rfl⟩
+    split <;> exact ⟨rfl, rfl, rfl, rfl⟩
+  have hsp : ∀ t : St, (sendPhase t f).1.live = t.live ∧ (sendPhase t f).1.susp = t.susp ∧
+      (sendPhase t f).1.stopped = t.stopped ∧ (sendPhase t f).1.gone = t.gone := by
+    intro t
+    have hag := ackGroup_flags
+    unfold sendPhase consume replicaSend replicaLog ignoreMessage
+    dsimp only
+    repeat' split
+    all_goals (first | exact ⟨rfl, rfl, rfl, rfl⟩ | simp [(hag _ _).1, (hag _ _).2.1, (hag _ _).2.2.1, (hag _ _).2.2.2.1])
+  unfold replicaStep
+  generalize isReady cfg s f = r at hir
+  obtain ⟨s1, ok⟩ := r
+  dsimp only at hir ⊢
+  cases ok
+  · simp only [Bool.false_eq_true, if_false]
+    exact ⟨hir.1.trans hl, hir.2.1.trans hs, hir.2.2.1, hir.2.2.2⟩
+  · simp only [if_true]
+    have h2 := hcn s1
+    generalize connect s1 f = r2 at h2
+    obtain ⟨s2, ok2⟩ := r2
+    dsimp only at h2 ⊢
+    cases ok2
+    · simp only [Bool.false_eq_true, if_false]
+      exact ⟨h2.1.trans (hir.1.trans hl), h2.2.1.trans (hir.2.1.trans hs), h2.2.2.1.trans hir.2.2.1, h2.2.2.2.trans hir.2.2.2⟩
+    · simp only [if_true]
+      have h3 := hsp s2
+      exact ⟨h3.1.trans (h2.1.trans (hir.1.trans hl)), h3.2.1.trans (h2.2.1.trans (hir.2.1.trans hs)),
+        h3.2.2.1.trans (h2.2.2.1.trans hir.2.2.1), h3.2.2.2.trans (h2.2.2.2.trans hir.2.2.2)⟩
+
+/-- a ready channel whose stream is dead and that has something to send notices it: the call ends in `failure` -/
+theorem replicaStep_broken_fails (cfg : Cfg) (s : St) (f : Fault) (h : InvA s) (hst : s.stopped = false)
+    (hr : s.chan = .ready) (hb : s.stream = .broken) (hd : s.cons < s.L.app) :
+    (replicaStep cfg s f).1.chan = .failure := by
+  have hir : isReady cfg s f = (s, true) := by unfold isReady; rw [if_pos hr]
+  have hc : connect s f = (s, true) := by
+    unfold connect; rw [if_pos (by rw [hb]; simp)]
+  have hl := h.lint
+  obtain ⟨m, hm⟩ := hl.holes (s.cons + 1) (by have := h.ackg hst; have := hl.gack_cons; omega) (by omega)
+  unfold replicaStep
+  rw [hir]
+  dsimp only
+  rw [if_pos rfl, hc]
+  dsimp only
+  rw [if_pos rfl]
+  unfold sendPhase consume
+  rw [if_pos (by omega : s.cons + 1 ≤ s.L.app)]
+  dsimp only
+  rw [if_neg (by have := lint_cons_ge hl; omega : ¬ s.cons + 1 < 0), hm]
+  dsimp only
+  unfold replicaSend
+  rw [if_pos (Or.inl (by rw [hb]; simp))]
+
+/-- a ready channel whose stream is dead and that has nothing to send stays as it is -/
+theorem replicaStep_broken_idle (cfg : Cfg) (s : St) (f : Fault)
+    (hr : s.chan = .ready) (hb : s.stream = .broken) (hd : ¬ s.cons < s.L.app) :
+    (replicaStep cfg s f).1 = s := by
+  have hir : isReady cfg s f = (s, true) := by unfold isReady; rw [if_pos hr]
+  have hc : connect s f = (s, true) := by
+    unfold connect; rw [if_pos (by rw [hb]; simp)]
+  unfold replicaStep
+  rw [hir]
+  dsimp only
+  rw [if_pos rfl, hc]
+  dsimp only
+  rw [if_pos rfl]
+  unfold sendPhase consume
+  rw [if_neg (by omega : ¬ s.cons + 1 ≤ s.L.app)]
+  dsimp only
+  rw [if_pos (by decide)]
+
+/-- Repeated faults: whatever happened before, two consecutive fault-free replica calls of a live,
+non-parked follower end with the channel synced — unless the channel is `ready` on a dead stream
+with nothing to send (then nothing is pending and the first later message triggers the resync). -/
+theorem two_steps_sync (cfg : Cfg) (s : St) (h : InvA s) (hb : s.chan = .ready → s.stream ≠ .none)
+    (hst : s.stopped = false) (hl : s.live = true) (hs : s.susp = false) :
+    Synced (replicaStep cfg (replicaStep cfg s .none).1 .none).1 ∨
+    (s.chan = .ready ∧ s.stream = .broken ∧ s.L.app ≤ s.cons) := by
+  have hf := replicaStep_flags cfg s .none hl hs
+  have hsp := replicaStep_spec cfg s .none h hst
+  by_cases hr : s.chan = .ready
+  · cases hstm : s.stream with
+    | none => exact absurd hstm (hb hr)
+    | up => exact Or.inl (replicaStep_none_stays cfg _ (replicaStep_none_stays cfg s ⟨hr, hstm⟩))
+    | broken =>
+      by_cases hd : s.cons < s.L.app
+      · have hfail := replicaStep_broken_fails cfg s .none h hst hr hstm hd
+        refine Or.inl (replicaStep_none_syncs cfg _ hsp.inv ?_ hf.1)
+        rw [hfail]; intro e; cases e
+      · exact Or.inr ⟨hr, rfl, by omega⟩
+  · exact Or.inl (replicaStep_none_stays cfg _ (replicaStep_none_syncs cfg s h hr hl))
+
+/-- one fault-free call on a synced, undisturbed channel: either the next message is appended by the
+follower and acknowledged, or there was nothing to send and nothing changes -/
+theorem replicaStep_none_progress (cfg : Cfg) (s : St) (h : InvA s) (hst : s.stopped = false)
+    (hsy : Synced s) (hdz : s.dz = false) :
+    Synced (replicaStep cfg s .none).1 ∧ (replicaStep cfg s .none).1.dz = false ∧
+    (replicaStep cfg s .none).1.L = s.L ∧
+    (replicaStep cfg s .none).1.F.app = (if s.F.app < s.L.app then s.F.app + 1 else s.F.app) ∧
+    (s.F.app < s.L.app → (replicaStep cfg s .none).1.gack = s.F.app + 1 ∧
+      (replicaStep cfg s .none).1.F.get (s.F.app + 1) = s.L.get (s.F.app + 1)) := by
+  have hc : s.cons = s.F.app := h.sync hsy.1 hdz (by rw [hsy.2]; intro e; cases e)
+  have hir : isReady cfg s .none = (s, true) := by unfold isReady; rw [if_pos hsy.1]
+  have hcn : connect s .none = (s, true) := by
+    unfold connect; rw [if_pos (by rw [hsy.2]; simp)]
+  have hl := h.lint
+  have hf := h.fint
+  unfold replicaStep
+  rw [hir]
+  dsimp only
+  rw [if_pos rfl, hcn]
+  dsimp only
+  rw [if_pos rfl]
+  by_cases hd : s.F.app < s.L.app
+  · rw [if_pos hd]
+    obtain ⟨m, hm⟩ := hl.holes (s.cons + 1) (by have := h.ackg hst; have := hl.gack_cons; omega) (by omega)
+    have hup : ¬ (s.stream ≠ .up ∨ Fault.none = Fault.send) := by rw [hsy.2]; simp
+    have hg : s.gack ≤ s.F.app + 1 ∧ s.F.app + 1 ≤ s.cons + 1 := by have := hl.gack_cons; omega
+    have h3 : sendPhase s .none =
+        ({ s with cons := s.cons + 1, F := s.F.put m, gack := s.F.app + 1 }, Out.acked) := by
+      unfold sendPhase consume
+      rw [if_pos (by omega : s.cons + 1 ≤ s.L.app)]
+      dsimp only
+      rw [if_neg (by have := lint_cons_ge hl; omega : ¬ s.cons + 1 < 0), hm]
+      dsimp only
+      unfold replicaSend replicaLog
+      dsimp only
+      rw [if_neg hup, if_neg (by omega : ¬ s.cons + 1 ≠ s.F.app + 1)]
+      dsimp only
+      rw [if_neg (show ¬ Fault.none = Fault.recv by intro e; cases e), if_pos (by omega : s.F.app + 1 = s.cons + 1)]
+      unfold ackGroup
+      dsimp only
+      rw [if_pos hg]
+    rw [h3]
+    dsimp only
+    refine ⟨⟨hsy.1, hsy.2⟩, hdz, rfl, by simp only [Log.put], fun _ => ⟨rfl, ?_⟩⟩
+    rw [get_put_eq hf.ack_app, ← hc, hm]
+  · rw [if_neg hd]
+    have h3 : sendPhase s .none = (s, Out.idle) := by
+      unfold sendPhase consume
+      rw [if_neg (by omega : ¬ s.cons + 1 ≤ s.L.app)]
+      dsimp only
+      rw [if_pos (by decide)]
+    rw [h3]
+    exact ⟨hsy, hdz, rfl, rfl, fun x => absurd x hd⟩
 
 end LinVerif.Replication
